@@ -86,7 +86,9 @@ Section Sound.
     unfold kids_rep_b. intros H u R. rewrite forallb_forall in H.
     specialize (H u (proj2 (zrange_In _ _) R)).
     destruct (children fuel t u) as [ks| | |]; try discriminate. exists ks. split; [reflexivity|].
-    apply andb_true_iff in H as [H1 H2]. rewrite forallb_forall in H1, H2. intros c. split.
+    apply andb_true_iff in H as [H1 H2]. apply andb_true_iff in H1 as [H0 H1].
+    split; [apply nodup_b_sound; assumption|].
+    rewrite forallb_forall in H1, H2. intros c. split.
     - intros I. apply opt_is_true. apply H1. assumption.
     - intros P. destruct (PD _ _ P) as [Rc _]. specialize (H2 c (proj2 (zrange_In _ _) Rc)).
       rewrite (proj2 (opt_is_true _ _) P) in H2. simpl in H2. apply mem_In. assumption.
